@@ -13,9 +13,45 @@ anchors found by structure, commutative operands / mirrored comparisons normalis
   SD, WHICH, ED, W (intersect_plane).
 Fails closed: an anchor that is not recognised is emitted as a value that falsifies its tying theorem.
 """
-from ._symsrc import (SRCOPS_FILE, Out, Sym, affine1, as_int, canon, cmp_parts, find, find_def, findall, match,
-                      parse_expr, read_tree, safe, text)
+from ._symsrc import (SRCOPS_FILE, Out, Sym, affine, affine1, as_int, canon, cmp_parts, find, find_def, findall, func_shape,
+                      match, parse_expr, read_tree, safe, text)
 from .c06 import _intersect
+
+
+def _bounds_groups(ms, label):
+    """the two `any(x and y)` groups -> {"above": [cmp of `a ? PT`, cmp of `b ? PT`], "below": [`PT ? a`, `PT ? b`]};
+    `label(node)` names an operand "PT" / "a" / "b" """
+    out = {}
+    if len(ms) != 2:
+        return None
+    for m in ms:
+        sides = {}
+        for k in ("_X", "_Y"):
+            op, l, r = cmp_parts(m[k])
+            lt, rt = label(l), label(r)
+            if rt == "PT" and lt in ("a", "b"):
+                sides[("above", lt)] = op
+            elif lt == "PT" and rt in ("a", "b"):
+                sides[("below", rt)] = op
+            else:
+                return None
+        kinds = {k for k, _ in sides}
+        if len(kinds) != 1 or {v for _, v in sides} != {"a", "b"}:
+            return None
+        kind = kinds.pop()
+        out[kind] = [sides[(kind, "a")], sides[(kind, "b")]]
+    return out if set(out) == {"above", "below"} else None
+
+
+def _ray(call):
+    """`f(a, c_b * b + c_a * a)` -> (first argument text, c_a, c_b, constant)"""
+    if len(call.args) != 2 or call.keywords:
+        return None
+    const, terms = affine(call.args[1])
+    co = {text(n): (int(k) if k.denominator == 1 else None) for k, n in terms}
+    if set(co) != {"a", "b"} or const.denominator != 1:
+        return None
+    return text(call.args[0]), co["a"], co["b"], int(const)
 
 
 def _single(o, tree):
@@ -42,30 +78,7 @@ def _single(o, tree):
     abbr = [("PT", pt)]
     cond = rej[0][0][1][0] if ok else None
 
-    def groups():
-        """the two `any(x and y)` groups -> {"above": [cmp of `a ? PT`, cmp of `b ? PT`], "below": [`PT ? a`, `PT ? b`]}"""
-        out = {}
-        ms = findall("any(_X and _Y)", cond)
-        if len(ms) != 2:
-            return None
-        for m in ms:
-            sides = {}
-            for k in ("_X", "_Y"):
-                op, l, r = cmp_parts(m[k])
-                lt, rt = text(l, abbr), text(r, abbr)
-                if rt == "PT" and lt in ("a", "b"):
-                    sides[("above", lt)] = op
-                elif lt == "PT" and rt in ("a", "b"):
-                    sides[("below", rt)] = op
-                else:
-                    return None
-            kinds = {k for k, _ in sides}
-            if len(kinds) != 1 or {v for _, v in sides} != {"a", "b"}:
-                return None
-            kind = kinds.pop()
-            out[kind] = [sides[(kind, "a")], sides[(kind, "b")]]
-        return out if set(out) == {"above", "below"} else None
-    g = safe(groups) or {}
+    g = safe(lambda: _bounds_groups(findall("any(_X and _Y)", cond), lambda n: text(n, abbr))) or {}
     o.str("segmentLineSrc", safe(lambda: text(pt)), "`Plane._line_segment_xsection`: PT")
     o.str("segmentNoneCheckSrc", safe(lambda: text(rej[0][0][0][0], abbr)) if ok else None, "`None` when … and the bounds test holds")
     o.str("boundsSrc", safe(lambda: text(cond, abbr)), "the bounds test")
@@ -74,6 +87,11 @@ def _single(o, tree):
     o.cmp("belowACmp", (g.get("below") or [None, None])[0], "… `or any((PT op a) and (PT op b))`")
     o.cmp("belowBCmp", (g.get("below") or [None, None])[1])
     o.str("boundsRejectResult", safe(lambda: text(rej[0][1])) if ok else None)
+    ry = safe(lambda: _ray(pt), (None, None, None, None))
+    o.str("segmentStart", ry[0], "PT = `self._line_xsection(<start>, ca * a + cb * b + d)`")
+    o.int("segmentRayACoef", ry[1])
+    o.int("segmentRayBCoef", ry[2])
+    o.int("segmentRayConst", ry[3])
     for ident, q in (("lineWrapperSrc", "Plane.line_xsection"), ("segmentWrapperSrc", "Plane.line_segment_xsection")):
         o.str(ident, safe(lambda: (lambda rs: text(rs[0]) if len(rs) == 1 else None)(Sym(find_def(tree, q)).returns())),
               "`%s`" % q)
@@ -98,6 +116,19 @@ def _stacked(o, tree):
     abbr = [("PTS", canon(parse_expr("_item(self.line_xsections(a, b - a), 0, 2)"))),
             ("VALID", canon(parse_expr("_item(self.line_xsections(a, b - a), 1, 2)")))]
     o.str("segmentStackSrc", safe(lambda: text(r, abbr)), "`Plane.line_segment_xsections`: (rows, flags)")
+    lab = {"PTS[VALID]": "PT", "a[VALID]": "a", "b[VALID]": "b"}
+    g = safe(lambda: _bounds_groups([m for m in findall("np.any(_X and _Y, axis=1)", r)][:2] if len({text(m["_"]) for m in findall("np.any(_X and _Y, axis=1)", r)}) == 2 else [],
+                                    lambda n: lab.get(text(n, abbr)))) or {}
+    o.cmp("stackAboveACmp", (g.get("above") or [None, None])[0], "row-wise bounds test: `np.any((a op PT) & (b op PT), axis=1)` …")
+    o.cmp("stackAboveBCmp", (g.get("above") or [None, None])[1])
+    o.cmp("stackBelowACmp", (g.get("below") or [None, None])[0], "… `| np.any((PT op a) & (PT op b), axis=1)`")
+    o.cmp("stackBelowBCmp", (g.get("below") or [None, None])[1])
+    call = safe(lambda: find("self.line_xsections(_A, _B)", r)["_"])
+    ry = safe(lambda: _ray(call), (None, None, None, None))
+    o.str("stackSegmentStart", ry[0], "PTS, VALID = `self.line_xsections(<start>, ca * a + cb * b + d)`")
+    o.int("stackSegmentRayACoef", ry[1])
+    o.int("stackSegmentRayBCoef", ry[2])
+    o.int("stackSegmentRayConst", ry[3])
 
 
 def _intersect_plane(o, tree):
@@ -143,4 +174,10 @@ def generate(repo):
             del o.lines[n:]
             o.notes.append("%s: %r" % (part.__name__, e))
         o.blank()
+    o.shapes("functionShapes",
+             [func_shape(t1, "Plane." + q) for q in ("_line_xsection", "_line_segment_xsection", "line_xsection",
+                                                      "line_segment_xsection", "line_xsections", "line_segment_xsections")] +
+             [func_shape(t2, "intersect_segment_with_plane"), func_shape(t3, "Polyline.intersect_plane")],
+             "for every function read above: (name, decorators, parameters with defaults, statements the symbolic reader "
+             "does not interpret, other bindings of the name in its scope)")
     return [SRCOPS_FILE, o.result()]
